@@ -2,7 +2,10 @@
 Tie: CanMatrix.rename_ecu / del_ecu / update_ecu_list / delete_obsolete_ecus / add_signal_receiver / del_signal_receiver
 (and through them add_ecu, glob_ecus, Frame.update_receiver, add/del_transmitter, add/del_receiver) vs model/EcuOps.v
 (cmd 1101, the full matrix after EVERY operation of a sequence, order of every list included); fnmatch.fnmatchcase vs
-model/Glob.v (cmd 1102); str.strip vs the model's strip (cmd 1103).
+model/Glob.v (cmd 1102; with character classes [seq] / [!seq] / ranges: glob_match_cls, cmd 1104, which is also what the
+sequences of cmd 1101 use); str.strip vs the model's strip (cmd 1103).
+Patterns are generated with every subset of fnmatch's metacharacter kinds (`*`, `?`, `[...]`), alone and combined,
+for ECUs, frames and signals; operations whose pattern carries a class have violation keys of their own.
 Search oracle: a transcription of the property's four sentences and its last sentence (set/list comprehensions over
 the state before the operation), evaluated on the real objects after every operation of every generated sequence;
 "changes nothing else" is checked on every attrs field of every Ecu/Frame/Signal and of the matrix."""
@@ -14,7 +17,7 @@ LEVEL_NOTE = ("theorems are about model/EcuOps.v + model/Glob.v; 'reference' = f
               "receivers (the kinds the property enumerates): rename/del/update leave CanMatrix.signals (free signals) untouched, "
               "delete_obsolete_ecus counts their receivers as references; envelope = duplicate-free reference lists, names without "
               "surrounding white space / glob metacharacters, distinct ECU names (outside it the model is tied but no property is claimed; "
-              "the Coq witnesses *_refuted show what happens there); fnmatch patterns with '[' are not modelled")
+              "the Coq witnesses *_refuted show what happens there); ECU NAMES containing '[' are not modelled (patterns are)")
 
 # flip to True to also evaluate the property on the streams outside the envelope (duplicate entries in a reference list etc.);
 # the failures then carry the keys 'outside-envelope:<kind>'
@@ -23,9 +26,50 @@ CLAIM_OUTSIDE_ENVELOPE = False
 ECU_POOL = ["A", "AB", "ABC", "B", "BA", "Gw", "Gw1", "Gw12", "E_1", "E_2", "C", "Vector__XXX"]
 FRAME_POOL = ["F1", "F10", "F2", "FA", "FAB", "Msg", "Msg_1", "M"]
 SIG_POOL = ["s", "s1", "s10", "sig", "sigA", "t", "tA", "u_1"]
-ECU_PATTERNS = ["*", "?", "??", "A*", "*1", "G?1", "Gw*", "A?", "*B*", "E_?", "*_*", "Z*", "a*", "???*", "*A", "Gw1?", "", "B", "AB", "Gw1"]
-FRAME_PATTERNS = ["*", "F*", "F1*", "F?", "Msg*", "*A*", "M", "F10", "Z*", "?"]
-SIG_PATTERNS = ["*", "s*", "s1*", "s?", "sig*", "t*", "*A", "u_1", "Z*", "?"]
+ECU_PATTERNS = ["*", "?", "??", "A*", "*1", "G?1", "Gw*", "A?", "*B*", "E_?", "*_*", "Z*", "a*", "???*", "*A", "Gw1?", "", "B", "AB", "Gw1",
+                "[AB]", "A[B]", "A[!B]", "Gw[0-9]", "Gw[12]", "Gw1[2]", "E_[12]", "E[_]1", "[A-G]*", "[!A]*", "[!A-B]?", "?[B]", "[", "A[", "A[B", "[]A]", "[!]", "[B-A]"]
+FRAME_PATTERNS = ["*", "F*", "F1*", "F?", "Msg*", "*A*", "M", "F10", "Z*", "?", "F[12]", "F1[0]", "F[!1]", "Msg[_]1", "[FM]*", "F[A-B]*", "F["]
+SIG_PATTERNS = ["*", "s*", "s1*", "s?", "sig*", "t*", "*A", "u_1", "Z*", "?", "s[1]", "s1[0]", "sig[A]", "[st]*", "t[!A]", "u[_]1", "s[0-9]", "[!s]*"]
+KIND_SETS = [("*",), ("?",), ("[",), ("[",), ("*", "?"), ("*", "["), ("?", "["), ("*", "?", "[")]
+
+
+def kinds_of(p):
+    """which of fnmatch's metacharacter kinds a pattern uses"""
+    return "".join(k for k in "*?[" if k in p) or "plain"
+
+
+def derive_pattern(rng, n, kinds):
+    """a pattern close to the name n that uses exactly the metacharacter kinds asked for (it usually matches n, and
+    often its neighbours in the pool, sometimes deliberately not n)"""
+    toks = list(n) if n else ["A"]
+    while len(toks) < len(kinds):
+        toks.append(rng.choice("B1"))
+    pos = rng.sample(range(len(toks)), len(kinds))
+    cut = None
+    for k, i in zip(kinds, pos):
+        c = toks[i]
+        if k == "*":
+            toks[i] = "*"
+            if rng.random() < 0.5:
+                cut = i
+        elif k == "?":
+            toks[i] = "?"
+        else:
+            other = rng.choice("AB12w_")
+            x = rng.random()
+            if x < 0.35:
+                toks[i] = "[" + "".join(rng.sample([c, other], 2)) + "]"
+            elif x < 0.55:
+                toks[i] = "[!" + other + "]"
+            elif x < 0.80 and c.isalnum():
+                toks[i] = "[" + chr(ord(c) - rng.randrange(2)) + "-" + chr(ord(c) + rng.randrange(3)) + "]"
+            elif x < 0.92:
+                toks[i] = "[" + c + "]"
+            else:
+                toks[i] = "[!" + c + "]"
+    if cut is not None and all(p <= cut for p in pos):
+        toks = toks[:cut + 1]
+    return "".join(toks)
 
 
 def nub(l):
@@ -322,12 +366,15 @@ def oracle(op, pre, post):
         else:
             gone_idx = [i for i, (n, _) in enumerate(pre["ecus"]) if fnmatch.fnmatchcase(n, op[1])]
         gone = set(listed[i] for i in gone_idx)
+        cls = " (pattern with a character class: %r)" % op[1] if k == "del_glob" and "[" in op[1] else ""
         exp_ecus = tuple(e for i, e in enumerate(pre["ecus"]) if i not in gone_idx)
         if post["ecus"] != exp_ecus:
-            bad.append(("del-ecu-list", "ECU list after del_ecu is not the old one without the deleted ECU(s)", exp_ecus, post["ecus"]))
+            bad.append(("del-class-ecu-list" if cls else "del-ecu-list",
+                        "ECU list after del_ecu is not the old one without the deleted ECU(s)" + cls, exp_ecus, post["ecus"]))
         exp = map_refs(pre, lambda l, kind: tuple(x for x in l if x not in gone))
         if post["frames"] != exp:
-            bad.append(("del-refs", "references after del_ecu are not the old ones without the deleted name(s)", exp, post["frames"]))
+            bad.append(("del-class-refs" if cls else "del-refs",
+                        "references after del_ecu are not the old ones without the deleted name(s)" + cls, exp, post["frames"]))
     elif k == "update":
         refd = set(refs3(pre))
         n0 = len(pre["ecus"])
@@ -363,7 +410,9 @@ def oracle(op, pre, post):
                 sigs.append((s[0], s[1], r))
             exp.append((f[0], f[1], f[2], tuple(nub([x for s in sigs for x in s[2]])), tuple(sigs)))
         if post["ecus"] != pre["ecus"] or sorted_refs(post["frames"]) != sorted_refs(tuple(exp)):
-            bad.append(("signal-receiver-op", "%s did not change exactly the matching signals' receivers" % k, sorted_refs(tuple(exp)), sorted_refs(post["frames"])))
+            bad.append(("signal-receiver-class-op" if "[" in gf + gs else "signal-receiver-op",
+                        "%s(%r, %r, %r) did not change exactly the matching signals' receivers" % (k, gf, gs, n),
+                        sorted_refs(tuple(exp)), sorted_refs(post["frames"])))
     return bad
 
 
@@ -526,19 +575,21 @@ def gen_op(rng, st, fresh):
         return (k, rng.choice(ECU_POOL), rng.choice([0, 41]))
     if k == "del_glob":
         x = rng.random()
-        if x < 0.35 and listed:
+        if x < 0.25 and listed:
             return (k, rng.choice(listed))                     # a plain name
-        if x < 0.5 and listed:
+        if x < 0.40 and listed:
             n = rng.choice(listed)
             i = rng.randrange(len(n) + 1)
             return (k, rng.choice([n[:i] + "*", "*" + n[i:], n[:i] + "?" + n[i + 1:], n[:i] + "*" + n[i + 1:]]))
+        if x < 0.75 and listed:
+            return (k, derive_pattern(rng, rng.choice(listed), rng.choice(KIND_SETS)))
         return (k, rng.choice(ECU_PATTERNS))
     if k in ("update", "obsolete"):
         return (k,)
     fnames = [f[0] for f in st["frames"]]
     snames = [s[0] for f in st["frames"] for s in f[4]]
-    gf = rng.choice(FRAME_PATTERNS + fnames + fnames)
-    gs = rng.choice(SIG_PATTERNS + snames + snames)
+    gf = rng.choice(FRAME_PATTERNS + fnames + fnames + [derive_pattern(rng, f, rng.choice(KIND_SETS)) for f in fnames])
+    gs = rng.choice(SIG_PATTERNS + snames + snames + [derive_pattern(rng, x, rng.choice(KIND_SETS)) for x in snames])
     return (k, gf, gs, some_ecu())
 
 
@@ -606,7 +657,8 @@ def run(chk):
                 "state is compared after every operation. Separate streams outside the envelope (duplicate entries, stale frame receivers, white "
                 "space or * ? in names, duplicate ECUs) are tied to the model only. non-trivial = some operation of the sequence changed the ECU list "
                 "or a reference list; distinct by (matrix, operations). Glob: all patterns of length <= 4 over {a,b,*,?} x all names of length <= 4 "
-                "over {a,b}, plus random pairs over an alphabet with regex metacharacters")
+                "over {a,b}, plus random pairs over an alphabet with regex metacharacters; classes: all patterns of length <= 4 over {a,b,[,],!,-} x "
+                "names of length <= 2 over {a,b,-,!,]} plus random ones with ranges; operation patterns use every subset of {*, ?, [..]}")
     ok = chk.build_and_audit()
     cm = core.import_impl()
     C = cm.canmatrix
@@ -675,6 +727,15 @@ def run(chk):
                 continue
             op, pre, post = s
             chk.count("op:" + op[0])
+            if op[0] == "del_glob":
+                chk.count("pattern-kinds:del_glob:" + kinds_of(op[1]))
+                hit = [n for n, _ in pre["ecus"] if fnmatch.fnmatchcase(n, op[1])]
+                if "[" in op[1]:
+                    chk.count("del_glob with a class: selects %s" % ("some listed ECU" if hit else "nothing"))
+                    if hit and "*" not in op[1] and "?" not in op[1]:
+                        chk.count("del_glob with a class and no * or ?: selects some listed ECU")
+            if op[0] in ("add_sr", "del_sr"):
+                chk.count("pattern-kinds:%s:%s" % (op[0], kinds_of(op[1] + op[2])))
             if (pre["ecus"], pre["frames"]) != (post["ecus"], post["frames"]):
                 changed = True
                 chk.count("op-changed-something:" + op[0])
@@ -766,6 +827,27 @@ def run(chk):
         nmatch += int(r)
         chk.case(("glob", p, n), "*" in p or "?" in p)
         add(1102, [cs(p), cs(n)], [[int(r)]], dict(glob=(p, n)))
+    # patterns with character classes against glob_match_cls
+    import re
+    cpairs = [(p, n) for p in words("ab[]!-", 4) for n in words("ab-!]", 2)]
+    alpha3 = "abcd019[]!-^\\*?&~|"
+    for _ in range(6000 if not thorough else 80000):
+        p = "".join(rng.choice(alpha3 + "[[]]--") for _ in range(rng.randrange(0, 9)))
+        if rng.random() < 0.5:
+            # a name made from the pattern: each closed class replaced by one of its characters, * and ? by something
+            n = re.sub(r"\[!?\]?[^\]]*\]", lambda m: rng.choice(m.group(0)[1:-1] or "a"), p)
+            n = "".join((rng.choice(["", "a", "01"]) if c == "*" else (rng.choice("abc0") if c == "?" else c)) for c in n)
+        else:
+            n = "".join(rng.choice("abcd019[]!-^\\*&~|") for _ in range(rng.randrange(0, 4)))
+        cpairs.append((p, n))
+    ncm = 0
+    for p, n in cpairs:
+        r = fnmatch.fnmatchcase(n, p)
+        ncm += int(r)
+        chk.case(("globc", p, n), "[" in p)
+        add(1104, [cs(p), cs(n)], [[int(r)]], dict(glob_cls=(p, n)))
+    chk.count("glob-class-pairs", len(cpairs))
+    chk.count("glob-class-matching", ncm)
     chk.count("glob-pairs", len(pairs))
     chk.count("glob-matching", nmatch)
     ws = [" ", "\t", "\n", "\x0b", "\x0c", "\r", "\x1c", "\x1f", "\x85", "\xa0", "\u2003", "\u3000", "\u200b", "\u1680", "\u2028", "a", "B", "_"]
@@ -786,11 +868,11 @@ def run(chk):
             chk.tie_break("ecuops" if "matrix" in inf else "glob", inf, got[:40], exp[:40])
     if len(out) != len(lines):
         chk.tie_break("ecuops", "driver returned %d lines for %d cases" % (len(out), len(lines)), None, None)
-    chk.ties["correspondence"] = {"suite": "ecuops (cmd 1101: state after every op), glob (1102), strip (1103)", "cases": len(lines),
+    chk.ties["correspondence"] = {"suite": "ecuops (cmd 1101: state after every op), glob (1102), glob with classes (1104), strip (1103)", "cases": len(lines),
                                   "sequences": sum(1 for i in info if "matrix" in i), "disagreements": bad}
     # in-Coq shard: short sequences + glob pairs
     seq_idx = [i for i, inf in enumerate(info) if "matrix" in inf and len(lines[i]) < 1500]
-    glob_idx = [i for i, inf in enumerate(info) if "glob" in inf]
+    glob_idx = [i for i, inf in enumerate(info) if "glob" in inf or "glob_cls" in inf]
     idx = list(range(len(fixed))) + rng.sample(seq_idx, min(120, len(seq_idx))) + rng.sample(glob_idx, min(150, len(glob_idx)))
     shard = []
     for i in sorted(set(idx)):
